@@ -36,7 +36,8 @@ def run_laze(laze, files, c, extra_args=None, keep=False, threads=None, info=Tru
     try:
         proj.render(files, root)
         start = os.path.join(root, c["local"]) if c.get("local") not in (None, ".") else root
-        args = [laze, "-C", start, "build"] + ([] if c.get("local") is not None else ["-g"]) + ["-G"]
+        bd = c.get("build_dir") or "build"
+        args = [laze, "-C", start, "build"] + ([] if c.get("local") is not None else ["-g"]) + ["-G"] + (["-B", bd] if c.get("build_dir") else [])
         if info: args += ["--info-export", os.path.join(tmp, "info.json")]
         args += proj.argv(c) + (extra_args or [])
         try:
@@ -44,7 +45,7 @@ def run_laze(laze, files, c, extra_args=None, keep=False, threads=None, info=Tru
             rc, out, err = p.returncode, p.stdout.decode("utf-8", "replace"), p.stderr.decode("utf-8", "replace")
         except subprocess.TimeoutExpired:
             rc, out, err = "timeout", "", ""
-        nf = os.path.join(root, "build", "build-local.ninja" if c.get("local") is not None else "build-global.ninja")
+        nf = os.path.join(root, bd, "build-local.ninja" if c.get("local") is not None else "build-global.ninja")
         ninja = open(nf, "rb").read() if os.path.exists(nf) else None
         inf = None
         ip = os.path.join(tmp, "info.json")
@@ -57,7 +58,7 @@ def run_laze(laze, files, c, extra_args=None, keep=False, threads=None, info=Tru
             shutil.rmtree(tmp, ignore_errors=True)
 
 def model_request(files, c, laze, root):
-    return proj.gen_request(files, c, "build", root, laze)
+    return proj.gen_request(files, c, c.get("build_dir") or "build", root, laze)
 
 # ------------------------------------------------------------ parsing both sides
 def parse_model(reply):
